@@ -126,8 +126,13 @@ impl Record {
         unimplemented!()
     }
     // the timestamp at which this generation was superseded or deleted (0 if it is current)
+    pub uninterp spec fn retirement_ts(&self) -> u64;
     #[verifier::external_body]
-    pub fn retirement_timestamp(&self) -> u64 { unimplemented!() }
+    pub fn retirement_timestamp(&self) -> (r: u64)
+        ensures r == self.retirement_ts(),
+    {
+        unimplemented!()
+    }
     #[verifier::external_body]
     pub fn link_successor(&self, next: &Arc<Record>) { unimplemented!() }
 }
@@ -347,7 +352,12 @@ impl FeoxStore {
 
 // std::ptr::eq(a, b.as_ref())   (rule R-ptreq): pointer identity of the caller's generation and the indexed one
 #[verifier::external_body]
-pub fn record_ptr_eq(a: &Record, b: &Arc<Record>) -> bool { unimplemented!() }
+pub fn record_ptr_eq(a: &Record, b: &Arc<Record>) -> (r: bool)
+    ensures r == record_is(a, b),
+{
+    unimplemented!()
+}
+pub uninterp spec fn record_is(a: &Record, b: &Arc<Record>) -> bool;
 
 #[verifier::external_body]
 pub fn slice_to_vec_u8(s: &[u8]) -> (v: Vec<u8>)
